@@ -16,8 +16,8 @@ META = {
     "technique": "bounded-exhaustive enumeration of source-outcome lists on AuthStrategy.authenticate vs the "
                  "statement (call log + returned/raised result)",
     "text": "All lists of 0..7 (quick) / 0..9 (thorough) auth sources over the outcomes {succeeds, raises "
-            "AuthenticationException, raises SSHException, raises ValueError} (21 845 / 349 525 lists; thorough "
-            "also 0..6 over 6 outcomes incl. BadAuthenticationType and OSError, 55 987 lists), produced lazily by "
+            "AuthenticationException, raises SSHException, raises ValueError} (21 845 / 349 525 lists), plus "
+            "0..4 / 0..6 sources over 6 outcomes incl. BadAuthenticationType and OSError (1 555 / 55 987 lists), produced lazily by "
             "a generator; the real AuthStrategy.authenticate runs each list. Oracle: source.authenticate is "
             "called once per source in production order with the given transport, never after the first "
             "success; on success the return value lists exactly the attempted sources paired with the "
@@ -199,10 +199,9 @@ def plan(tier):
     for n in range(0, nmax + 1):
         k = max(0, n - 6)       # <= 4^6 lists per work item
         items += [(OUTCOMES4, n, p) for p in itertools.product(OUTCOMES4, repeat=k)]
-    if tier == "thorough":
-        for n in range(0, 7):
-            k = max(0, n - 4)
-            items += [(OUTCOMES6, n, p) for p in itertools.product(OUTCOMES6, repeat=k)]
+    for n in range(0, 5 if tier == "quick" else 7):
+        k = max(0, n - 4)
+        items += [(OUTCOMES6, n, p) for p in itertools.product(OUTCOMES6, repeat=k)]
     return items, nmax
 
 
@@ -219,7 +218,7 @@ def main(tier):
     items, nmax = plan(tier)
     ck.merge(core.pmap(items, work))
     ck.extra["bound"] = {"max_sources": nmax, "outcomes": OUTCOMES4,
-                         "extra_outcomes_up_to_6_sources": OUTCOMES6[4:] if tier == "thorough" else []}
+                         "extra_outcomes": OUTCOMES6[4:], "max_sources_with_extra_outcomes": 4 if tier == "quick" else 6}
     return ck.finish()
 
 
